@@ -80,6 +80,7 @@ type c06Rec struct {
 	LineLen   []int           `json:"linelen"`
 	Strict    layout.File     `json:"strict"`
 	Relaxed   layout.File     `json:"relaxed"`
+	Same      bool            `json:"relaxed_same"` // relaxed projection identical to the strict one (then `relaxed` is left empty)
 	Diags     []c06Diag       `json:"diags"`
 	LintPanic string          `json:"lintpanic"`
 	ReadRange string          `json:"readrange"`
@@ -151,6 +152,14 @@ rule {
   }
 }
 `
+
+func mustJSON(v any) string {
+	b, err := json.Marshal(v)
+	if err != nil {
+		panic(err)
+	}
+	return string(b)
+}
 
 func sliceValue(v string, first, last int) string {
 	if first < 1 {
@@ -285,6 +294,10 @@ func init() {
 			}
 			r.Strict = layout.Parse(file, true)
 			r.Relaxed = layout.Parse(file, false)
+			if a, b := mustJSON(r.Strict), mustJSON(r.Relaxed); a == b {
+				r.Same = true
+				r.Relaxed = layout.File{Groups: []layout.Group{}, Flat: []layout.Rule{}}
+			}
 			if !nodiag {
 				r.LintPanic = lint.diags(file, r.Strict.Err == "" && strictable(cs.Lay), &r.Diags)
 			}
